@@ -34,7 +34,8 @@ struct vbuf {
 #define VP_MAXDIM 4
 #endif
 // FIXW/FIXH: concrete view dimensions (a shape parameter of the query) instead of symbolic ones
-struct src_base { int w = 0, h = 0; void dims() {
+struct src_base { int w = 0, h = 0; bool preset = false; int fixpad = -1; int padv(int hi) { return fixpad >= 0 ? fixpad : vp_range(0, hi); } void set(int w_, int h_) { w = w_; h = h_; preset = true; } void dims() {
+    if (preset) return;
 #ifdef FIXW
     w = FIXW; h = FIXH;
 #else
@@ -47,7 +48,7 @@ template <class Pixel> struct src_interleaved : src_base {
     using view_t = typename gil::type_from_x_iterator<Pixel*>::view_t;
     static constexpr bool addressable = true;
     vbuf b; long rowbytes = 0;
-    view_t make() { dims(); int pad = vp_range(0, 3); rowbytes = (long)w * (long)sizeof(Pixel) + pad;
+    view_t make() { dims(); int pad = padv(3); rowbytes = (long)w * (long)sizeof(Pixel) + pad;
         b.get((unsigned long)(h * rowbytes)); return gil::interleaved_view(w, h, (Pixel*)b.p, rowbytes); }
     static constexpr int nplanes = 1;
     unsigned char* plane(int) { return b.p; } unsigned long plane_size() const { return b.n; }
@@ -72,7 +73,7 @@ struct src_rgb8p : src_base {
     using view_t = gil::rgb8_planar_view_t;
     static constexpr bool addressable = true;
     vbuf r, g, bl; long rowbytes = 0;
-    view_t make() { dims(); int pad = vp_range(0, 2); rowbytes = w + pad; unsigned long n = (unsigned long)(h * rowbytes);
+    view_t make() { dims(); int pad = padv(2); rowbytes = w + pad; unsigned long n = (unsigned long)(h * rowbytes);
         r.get(n); g.get(n); bl.get(n); return gil::planar_rgb_view(w, h, r.p, g.p, bl.p, rowbytes); }
     static constexpr int nplanes = 3;
     unsigned char* plane(int k) { return k == 0 ? r.p : k == 1 ? g.p : bl.p; } unsigned long plane_size() const { return r.n; }
@@ -83,8 +84,8 @@ struct src_rgb8p : src_base {
 struct src_gray8step : src_base {
     using view_t = gil::gray8_step_view_t;
     static constexpr bool addressable = true;
-    vbuf b; long rowbytes = 0; int xs = 1;
-    view_t make() { dims(); xs = vp_range(1, 3); int pad = vp_range(0, 2);
+    vbuf b; long rowbytes = 0; int xs = 1; int fixxs = -1;   // fixxs > 0: concrete x step
+    view_t make() { dims(); xs = fixxs > 0 ? fixxs : vp_range(1, 3); int pad = padv(2);
         rowbytes = (w > 0 ? (long)(w - 1) * xs + 1 : 0) + pad;
         b.get((unsigned long)(h * rowbytes));
         using loc_t = view_t::xy_locator; using xit_t = view_t::x_iterator;
@@ -99,7 +100,7 @@ template <class Image> struct src_bits : src_base {
     static constexpr bool addressable = true;
     vbuf b; long rowbits = 0;
     static constexpr int bpp = view_t::reference::bit_size;
-    view_t make() { dims(); int pad = vp_range(0, 1); long rb = ((long)w * bpp + 7) / 8 + pad; rowbits = rb * 8;
+    view_t make() { dims(); int pad = padv(1); long rb = ((long)w * bpp + 7) / 8 + pad; rowbits = rb * 8;
         b.get((unsigned long)(h * rb));
         using loc_t = typename view_t::xy_locator; using xit_t = typename view_t::x_iterator;
         return view_t(w, h, loc_t(xit_t(b.p, 0), rowbits)); }
@@ -149,41 +150,41 @@ struct src_virtual : src_base {
 
 // ------------------------------------------------------------------------------------------------ transformations
 // each: apply(view), output dims from input dims, and the documented map from output coords to input coords
-struct xf_id { void init(int, int) {}
+struct xf_id { static constexpr bool swaps = false; void init(int, int) {}
     template <class V> V apply(V const& v) const { return v; }
     int ow(int w, int h) const { return w; } int oh(int w, int h) const { return h; }
     void map(int x, int y, int w, int h, int& sx, int& sy) const { sx = x; sy = y; } };
-struct xf_flipud { void init(int, int) {}
+struct xf_flipud { static constexpr bool swaps = false; void init(int, int) {}
     template <class V> auto apply(V const& v) const -> typename gil::dynamic_y_step_type<V>::type { return gil::flipped_up_down_view(v); }
     int ow(int w, int h) const { return w; } int oh(int w, int h) const { return h; }
     void map(int x, int y, int w, int h, int& sx, int& sy) const { sx = x; sy = h - 1 - y; } };
-struct xf_fliplr { void init(int, int) {}
+struct xf_fliplr { static constexpr bool swaps = false; void init(int, int) {}
     template <class V> auto apply(V const& v) const -> typename gil::dynamic_x_step_type<V>::type { return gil::flipped_left_right_view(v); }
     int ow(int w, int h) const { return w; } int oh(int w, int h) const { return h; }
     void map(int x, int y, int w, int h, int& sx, int& sy) const { sx = w - 1 - x; sy = y; } };
-struct xf_transposed { void init(int, int) {}
+struct xf_transposed { static constexpr bool swaps = true; void init(int, int) {}
     template <class V> auto apply(V const& v) const -> typename gil::dynamic_xy_step_transposed_type<V>::type { return gil::transposed_view(v); }
     int ow(int w, int h) const { return h; } int oh(int w, int h) const { return w; }
     void map(int x, int y, int w, int h, int& sx, int& sy) const { sx = y; sy = x; } };
-struct xf_rot90cw { void init(int, int) {}
+struct xf_rot90cw { static constexpr bool swaps = true; void init(int, int) {}
     template <class V> auto apply(V const& v) const -> typename gil::dynamic_xy_step_transposed_type<V>::type { return gil::rotated90cw_view(v); }
     int ow(int w, int h) const { return h; } int oh(int w, int h) const { return w; }
     void map(int x, int y, int w, int h, int& sx, int& sy) const { sx = y; sy = h - 1 - x; } };
-struct xf_rot90ccw { void init(int, int) {}
+struct xf_rot90ccw { static constexpr bool swaps = true; void init(int, int) {}
     template <class V> auto apply(V const& v) const -> typename gil::dynamic_xy_step_transposed_type<V>::type { return gil::rotated90ccw_view(v); }
     int ow(int w, int h) const { return h; } int oh(int w, int h) const { return w; }
     void map(int x, int y, int w, int h, int& sx, int& sy) const { sx = w - 1 - y; sy = x; } };
-struct xf_rot180 { void init(int, int) {}
+struct xf_rot180 { static constexpr bool swaps = false; void init(int, int) {}
     template <class V> auto apply(V const& v) const -> typename gil::dynamic_xy_step_type<V>::type { return gil::rotated180_view(v); }
     int ow(int w, int h) const { return w; } int oh(int w, int h) const { return h; }
     void map(int x, int y, int w, int h, int& sx, int& sy) const { sx = w - 1 - x; sy = h - 1 - y; } };
-struct xf_subimage { int x0 = 0, y0 = 0, dw = 0, dh = 0;
+struct xf_subimage { static constexpr bool swaps = false; int x0 = 0, y0 = 0, dw = 0, dh = 0;
     void init(int w, int h) { x0 = vp_range(0, VP_MAXDIM); y0 = vp_range(0, VP_MAXDIM); dw = vp_range(0, VP_MAXDIM); dh = vp_range(0, VP_MAXDIM);
         vp_assume(x0 <= w && dw <= w - x0 && y0 <= h && dh <= h - y0); }
     template <class V> V apply(V const& v) const { return gil::subimage_view(v, x0, y0, dw, dh); }
     int ow(int w, int h) const { return dw; } int oh(int w, int h) const { return dh; }
     void map(int x, int y, int w, int h, int& sx, int& sy) const { sx = x0 + x; sy = y0 + y; } };
-struct xf_subsampled { int xs = 1, ys = 1;
+struct xf_subsampled { static constexpr bool swaps = false; int xs = 1, ys = 1;
     void init(int w, int h) { xs = vp_range(1, 3); ys = vp_range(1, 3); }
     template <class V> auto apply(V const& v) const -> typename gil::dynamic_xy_step_type<V>::type { return gil::subsampled_view(v, xs, ys); }
     int ow(int w, int h) const { return (w + xs - 1) / xs; } int oh(int w, int h) const { return (h + ys - 1) / ys; }
